@@ -284,7 +284,7 @@ CHECKS["C19"] = {
                        "utils.py:pack", "utils.py:unpack", "utils.py:swap", "utils.py:p8", "utils.py:u64",
                        "utils.py:swap16", "utils.py:swap32", "utils.py:swap64"],
     "required_cells": ["len%16=0", "len%16=1", "len%16=15", "palette:zeros", "palette:long", "palette:short",
-                       "palette:lineends", "dumpstruct:bits", "dumpstruct:plain", "dumpstruct:display-offset", "pack:network", "pack:!", "pack:<", "pack:odd-width", "dumpstruct:forms", "dumpstruct:after-assignment", "dumpstruct:after-extension", "swap:width-not-a-multiple-of-8"],
+                       "palette:lineends", "dumpstruct:bits", "dumpstruct:plain", "dumpstruct:display-offset", "dumpstruct:repeated-discard-members", "pack:@", "pack:=", "pack:network", "pack:!", "pack:<", "pack:odd-width", "dumpstruct:forms", "dumpstruct:after-assignment", "dumpstruct:after-extension", "swap:width-not-a-multiple-of-8"],
     "assumptions": ASSUME_COMMON,
 }
 
